@@ -475,7 +475,7 @@ fn c06_one(gc: &GraphCase, limits: bool, st: &mut Stats, out: &mut Vec<Violation
             // unsupported input: sophia must say so
             st.inc("validated");
             match sophia_canon(&gc.quads, Container::Hash, sha384) {
-                Err(e) if e.starts_with("unsupported") => {}
+                Err(e) if e.starts_with("unsupported") => st.outcome("unsupported-input-refused"),
                 other => out.push(Violation::new("unsupported-input-not-refused", format!("{}: {:?}", gc.name, other), case.clone())),
             }
             continue;
@@ -488,6 +488,7 @@ fn c06_one(gc: &GraphCase, limits: bool, st: &mut Stats, out: &mut Vec<Violation
         match &big {
             Ok(doc) if *doc == r.doc => {
                 st.inc("agree");
+                st.outcome(if r.max_depth == 0 { "document-equal:first-degree-hashes-suffice" } else if r.max_group <= 1 { "document-equal:n-degree-hashing" } else { "document-equal:n-degree-hashing-with-permutations" });
             }
             Ok(doc) => out.push(Violation::new(
                 format!("differs-from-rdfc10:{feature}"),
@@ -541,6 +542,7 @@ fn c06_one(gc: &GraphCase, limits: bool, st: &mut Stats, out: &mut Vec<Violation
                                 ));
                             } else {
                                 st.inc("toxic_confirmed");
+                                st.outcome("toxic-error-justified-by-the-reference-counters");
                             }
                         }
                         Err(e) => out.push(Violation::new("unexpected-error", format!("{}: {e}", gc.name), case.clone())),
